@@ -353,3 +353,77 @@ extern "C" void h_partlabels(int ver, int nparts, int delVertex) {
 	}
 	sym_reach("end");
 }
+
+// ---- (d) SetShapePartitions followed directly by RemoveEmptyPartitions / Save, without a rebuild in between
+// mode 0: SetShapePartitions, save+reload; 1: SetShapePartitions, RemoveEmptyPartitions; 2: as 0 with the partitions
+// stored as strips (OB/FO3/SK, one strip per triangle) and no partition query before SetShapePartitions
+extern "C" void h_parts_direct(int ver, int nparts, int mode) {
+	NifFile nif;
+	std::vector<Triangle> tris = {Triangle(0, 1, 2), Triangle(1, 3, 2), Triangle(2, 3, 4), Triangle(3, 5, 4)};
+	NiShape* shape = build_skinned(nif, ver, 6, tris, 2, 2, false);
+	nif.UpdateSkinPartitions(shape);
+	if (mode == 2) {
+		auto si = nif.GetHeader().GetBlock<NiSkinInstance>(shape->SkinInstanceRef());
+		auto sp = si ? nif.GetHeader().GetBlock(si->skinPartitionRef) : nullptr;
+		sym_assert(sp != nullptr, "C10-setup: no skin partition");
+		if (sp)
+			for (auto& pb : sp->partitions) {
+				pb.numStrips = (uint16_t) pb.triangles.size();
+				pb.stripLengths.assign(pb.triangles.size(), 3);
+				pb.strips.clear();
+				for (auto& t : pb.triangles)
+					pb.strips.push_back({t.p1, t.p2, t.p3});
+				pb.hasFaces = true;
+				pb.triangles.clear();
+				pb.trueTriangles.clear();
+			}
+	}
+	NiVector<BSDismemberSkinInstance::PartitionInfo> pinfo;
+	for (int i = 0; i < nparts; i++) {
+		BSDismemberSkinInstance::PartitionInfo pi;
+		pi.flags = PF_EDITOR_VISIBLE;
+		pi.partID = (uint16_t) (30 + i);
+		pinfo.push_back(pi);
+	}
+	std::vector<int> labels(tris.size());
+	for (size_t i = 0; i < labels.size(); i++) {
+		labels[i] = (int) sym_u32("lab");
+		sym_assume(labels[i] >= 0 && labels[i] < nparts);
+	}
+	nif.SetShapePartitions(shape, pinfo, labels);
+	sym_reach("built");
+	NifFile re;
+	NifFile* q = &nif;
+	NiShape* qs = shape;
+	if (mode == 1)
+		nif.RemoveEmptyPartitions(shape);
+	else {
+		FmRange f = fm_save(nif, true);
+		int rc = fm_load(re, f);
+		sym_assert(rc == 0, "C10-direct-reload: model does not reload after SetShapePartitions");
+		q = &re;
+		qs = re.FindBlockByName<NiShape>("Shape");
+		sym_assert(qs != nullptr, "C10-direct-reload: shape missing after reload");
+		if (!qs)
+			return;
+	}
+	NiVector<BSDismemberSkinInstance::PartitionInfo> pinfo2;
+	std::vector<int> out;
+	q->GetShapePartitions(qs, pinfo2, out);
+	std::vector<Triangle> cur;
+	qs->GetTriangles(cur);
+	sym_assert(out.size() == cur.size() && cur.size() == tris.size(), "C10-direct-count: label list / triangle count changed");
+	std::vector<int> got(tris.size(), -2);
+	for (size_t i = 0; i < tris.size(); i++)
+		for (size_t j = 0; j < cur.size() && j < out.size(); j++)
+			if (same_tri(rot(tris[i]), rot(cur[j])))
+				got[i] = out[j];
+	for (size_t i = 0; i < tris.size(); i++)
+		sym_assert(got[i] >= 0 && got[i] < (int) pinfo2.size(), "C10-direct-cover: a triangle lies in no partition after SetShapePartitions (+ RemoveEmptyPartitions / save)");
+	for (size_t a = 0; a < tris.size(); a++)
+		for (size_t b = a + 1; b < tris.size(); b++) {
+			sym_assert((labels[a] == labels[b]) == (got[a] == got[b]), "C10-direct-group: triangles changed their partition grouping");
+			sym_assert((labels[a] < labels[b]) == (got[a] < got[b]), "C10-direct-order: partition labels are not an order-preserving renumbering");
+		}
+	sym_reach("end");
+}
